@@ -11,17 +11,17 @@ META = {
     "transforms": ["if-conversion of RTCMMessage._set_attribute_single", "predication of RTCMMessage._getsatcellmaps"],
     "shims": ["int", "bin (popcount)", "chr"],
     "bounds": {
-        "quick": "all defined identities; every counter in {0,1,2} + one seeded mixed vector; all 16 flag sets of 1230; "
-                 "MSM (NSat,NSig) in {(0,0),(1,1),(2,2)} with mask positions symbolic; 4076_201 5 (layers,N,M) shapes; "
+        "quick": "all defined identities; every counter in {0,1,2,3} + two seeded mixed vectors; all 16 flag sets of 1230; "
+                 "MSM (NSat,NSig) in {(0,0),(1,1),(2,1)} with mask positions symbolic and (2,2),(3,2) with seeded positions; 4076_201 5 (layers,N,M) shapes; "
                  "payload = needed bytes + 2 spare symbolic bytes; all payload bits symbolic",
-        "thorough": "counters 0..4, three seeded mixed vectors, each counter alone at its field maximum (if <= 1023 bytes), "
+        "thorough": "counters 0..5, four seeded mixed vectors, each counter alone at its field maximum (if <= 1023 bytes), "
                     "MSM up to 4x4, 4076_201 up to degree/order 16 (153 coefficients)"},
     "outside": "repeat counts above 4 except single maxima; IEEE rounding of value*resolution (scaling kept uninterpreted); "
                "NUL code units in text fields (assumed non-zero)",
     "assumptions": ["text (STR) code units are non-zero", "float scaling is an uninterpreted pair (raw term, constant)",
                     "definitions tables of /repo are the reference for field order/width/type (pinned separately by C10)"],
 }
-WALL_BUDGET = {"quick": 900, "thorough": 3 * 3600}
+WALL_BUDGET = {"quick": 480, "thorough": 3 * 3600}
 
 
 def jobs(tier, seed):
